@@ -944,7 +944,7 @@ def run(ck):
             cell += 1
             if not ck.mine(cell):
                 continue
-            x = kernel_ladder(sp, dn, rng, 160 if thorough else 16)
+            x = kernel_ladder(sp, dn, rng, 800 if thorough else 16)
             monitor_kernel(ck, sp, dn, x)
             monitor_negative(ck, sp, dn)
             if sp.params[0] in (1.0, 0.5, 2.5, 0.3) or thorough:
@@ -960,7 +960,7 @@ def run(ck):
         ck.require(f"in/Huber/{dn}/threshold-neighbours")
 
     # ---------------- correctors
-    reps = 6 if thorough else 1
+    reps = 24 if thorough else 1
     shapes = [(), (1,), (3,), (7,), (2, 3), (1, 4), (12,)]
     cell = 0
     for sp in cspecs:
@@ -992,7 +992,7 @@ def run(ck):
 
     # ---------------- optimizer integration
     pool = [s for s in cspecs if s.cmax >= 8]
-    nrun = 40 if thorough else 8
+    nrun = 160 if thorough else 8
     cell = 0
     for optname in ("GN", "LM"):
         for config in ("single-auto", "single-triggs", "list-auto", "list-list"):
